@@ -5,7 +5,7 @@ cd /verif
 git -C /repo diff --quiet || { echo "/repo not clean"; exit 9; }
 git -C /repo apply "$P" || { echo "patch does not apply"; exit 9; }
 for c in "$@"; do
-  VERIF_SCRATCH=1 ./check $c > /var/tmp/seedtest_$c.log 2>&1; rc=$?
+  VERIF_SCRATCH=1 timeout 1200 ./check $c > /var/tmp/seedtest_$c.log 2>&1; rc=$?
   echo "$c exit=$rc violations=$(grep -c '^VIOLATION' /var/tmp/seedtest_$c.log) :: $(grep '^VIOLATION' /var/tmp/seedtest_$c.log | head -2 | sed 's/.*obligation=//' | cut -c1-110 | tr '\n' ';')"
 done
 git -C /repo checkout -- .
